@@ -17,7 +17,7 @@ import Nstd.Server.ModelC14
   C14 (timers, clients, listeners, establishers under virtual time; every op prints
        `<events or ok> | <live objects with their epoll interest> clk=<virtual clock>`):
      script <id> <k> <acts>     the k-th callback on object <id> performs <acts> (comma separated):
-                                mk:<id>:<interval> rmt:<id> rmc:<id> rml:<id> rme:<id> rmnew null intr
+                                mk:<id>:<interval> pair:<id> lis:<id> con:<id> rmt:<id> rmc:<id> rml:<id> rme:<id> rmnew null intr
                                 sus:<id> res:<id> rd:<id> wr:<id>:<n>:<outcome>      (`-` = none)
      act <act>                  the same API call at top level
      mkpair <id> | mklisten <id> | mkconn <id>     Server::pair / listen / connect
@@ -103,9 +103,10 @@ namespace C14
 
 def parseAct (t : String) : Option Act :=
   match t.splitOn ":" with
-  | ["mk", i, iv] => do
-    let iv ← iv.toNat?
-    if iv = 0 then none else pure (.mkTimer (← i.toNat?) iv)
+  | ["mk", i, iv] => do pure (.mkTimer (← i.toNat?) (← iv.toNat?))
+  | ["pair", i] => do pure (.mkPair (← i.toNat?))
+  | ["lis", i] => do pure (.mkListener (← i.toNat?))
+  | ["con", i] => do pure (.mkEst (← i.toNat?))
   | ["rmt", i] => do pure (.rmTimer (← i.toNat?))
   | ["rmc", i] => do pure (.rmClient (← i.toNat?))
   | ["rml", i] => do pure (.rmListener (← i.toNat?))
